@@ -630,3 +630,11 @@ mod tests {
         }
     }
 }
+
+#[cfg(feature = "verif-hooks")]
+impl Array8 {
+    /// Verification hook: `(num_zeros, estimator)`.
+    pub(super) fn verif_parts(&self) -> (u32, &HipEstimator) {
+        (self.num_zeros, &self.estimator)
+    }
+}
